@@ -78,7 +78,7 @@ def _breaking_job(args):
 
 def _equivalent_job(args):
     repo, idx, rules = args
-    name, fn = variants.equivalent_variants()[idx]
+    name, fn = variants.equivalent_variants(repo)[idx]
     d = _copy_tree(repo)
     try:
         for dp, dn, fnames in os.walk(os.path.join(d, 'traph')):
@@ -101,7 +101,7 @@ def run(repo, prop, rules, known=()):
     problems = []
     with multiprocessing.Pool(nproc) as pool:
         bres = pool.map(_breaking_job, [(repo, i) for i in mine])
-        eres = pool.map(_equivalent_job, [(repo, i, rules) for i in range(len(variants.equivalent_variants()))])
+        eres = pool.map(_equivalent_job, [(repo, i, rules) for i in range(len(variants.equivalent_variants(repo)))])
     applied = [r for r in bres if r[1] != 'absent']
     killed = [r for r in applied if r[1] == 'killed']
     for vid, st, info in applied:
